@@ -56,8 +56,13 @@ def generate(repo):
         return "⟨%s, %d, %s, %d, %s⟩" % (lstr(short(c)), c._cmdval if c._cmdval is not None else 999,
                                         lbool(c._hasparam), c.devicetype, lbool(std_known(c)))
 
+    from gen import _registry as reg
+    std_reg, how_std = reg.std_registry()
+    special_reg, how_special = reg.special_registry()
+    devstd_reg, how_devstd = reg.devstd_registry()
+    devinst_reg, how_devinst = reg.devinst_registry()
     std_items = []
-    for (dt, op), c in gg._StandardCommand._opcodes.items():
+    for (dt, op), c in std_reg:
         if not isinstance(dt, int) or not isinstance(op, int):
             continue
         std_items.append("((%d, %d), %s)" % (dt, op, std_rec(c)))
@@ -77,7 +82,7 @@ def generate(repo):
     def special_rec(c):
         return "⟨%s, %d, %s, %s⟩" % (lstr(short(c)), c._cmdval, lbool(c._hasparam), special_kind(c))
 
-    special_items = ["(%d, %s)" % (op, special_rec(c)) for op, c in gg._SpecialCommand._opcodes.items()
+    special_items = ["(%d, %s)" % (op, special_rec(c)) for op, c in special_reg
                      if isinstance(op, int)]
 
     def gear_entry(c):
@@ -99,9 +104,9 @@ def generate(repo):
                 and impl(c, "__str__") == base + ".__str__")
 
     dev_items = ["(%d, ⟨%s, %d, %s⟩)" % (op, lstr(short(c)), op, lbool(dev_known(c, "_StandardDeviceCommand")))
-                 for op, c in dg._StandardDeviceCommand._opcodes.items() if isinstance(op, int)]
+                 for op, c in devstd_reg if isinstance(op, int)]
     inst_items = ["(%d, ⟨%s, %d, %s⟩)" % (op, lstr(short(c)), op, lbool(dev_known(c, "_StandardInstanceCommand")))
-                  for op, c in dg._StandardInstanceCommand._opcodes.items() if isinstance(op, int)]
+                  for op, c in devinst_reg if isinstance(op, int)]
 
     def devspecial_kind(c):
         i, f, s = impl(c, "__init__"), impl(c, "from_frame"), impl(c, "__str__")
@@ -255,5 +260,7 @@ def unknownAddrClasses : List String := [%s]
     summary = {"classes": len(rows), "stdOpcodes": len(std_items), "specialOpcodes": len(special_items),
                "devOpcodes": len(dev_items), "instOpcodes": len(inst_items),
                "devCommands": len(dev_entries), "instanceTypes": len(itype_items),
-               "pushEvents": len(push_items)}
+               "pushEvents": len(push_items),
+               "registries_read_by": {"std": how_std, "special": how_special, "devStd": how_devstd,
+                                      "devInst": how_devinst}}
     return "\n".join(src), summary
